@@ -332,15 +332,24 @@ def check_lookup_keys(ctx):
         if fi is None:
             continue
         ctx.touch(fi)
+        # the lookup is the dict the function returns or serialises
+        outs = set()
+        for n in ast.walk(fi.node):
+            if isinstance(n, ast.Return) and isinstance(n.value, ast.Name):
+                outs.add(n.value.id)
+            if isinstance(n, ast.Call) and isinstance(
+                    n.func, ast.Attribute) and n.func.attr in (
+                        'dump', 'dumps') and n.args and isinstance(
+                            n.args[0], ast.Name):
+                outs.add(n.args[0].id)
         for n in ast.walk(fi.node):
             if isinstance(n, ast.Assign):
                 for tg in n.targets:
                     if isinstance(tg, ast.Subscript) and isinstance(
                             tg.slice, ast.Constant) and isinstance(
                                 tg.slice.value, str) and isinstance(
-                                    tg.value, ast.Name) and (
-                            'lookup' in tg.value.id
-                            or tg.value.id == 'result'):
+                                    tg.value, ast.Name) \
+                            and tg.value.id in outs:
                         if '/' not in tg.slice.value and \
                                 tg.slice.value != 'None':
                             added.setdefault(tg.slice.value, (fi, n))
@@ -350,9 +359,11 @@ def check_lookup_keys(ctx):
         if isinstance(n, ast.Call) and isinstance(n.func, ast.Attribute) \
                 and n.func.attr == 'pop' and n.args and isinstance(
                     n.args[0], ast.Constant) and isinstance(
-                        n.func.value, ast.Name) \
-                and 'lookup' in n.func.value.id:
-            popped.add(n.args[0].value)
+                        n.func.value, ast.Name):
+            from ..core.slicing import backward_slice
+            sl = backward_slice(rm, n.func.value)
+            if sl.call_names() & {'load', 'loads'}:
+                popped.add(n.args[0].value)
     if not added:
         raise AnalysisError('marker lookup writers add no constant key')
     for k, (fi, site) in sorted(added.items()):
